@@ -11,7 +11,7 @@ RULE = ("worlds of 2-4 validators (bonded / unbonding / unbonded / jailed / tomb
         "pruned), block time, external staking changes, parameter changes and evidence submissions; every submission is a "
         "VALID double-vote / misbehaviour built with real ed25519 signatures plus exactly one named mutation (or none), through "
         "the message (ValidateBasic + msg server) or the keeper entry; a case is non-trivial per distinct "
-        "(kind, entry, mutation, result class); quick ~1500 histories")
+        "(kind, entry, mutation, result class); quick ~1000 histories")
 ASSUMPTIONS = [
     "PARTIAL: Ed25519 verification and the 07-tendermint light client are oracles of the model (per vote: the chain ids over "
     "which its signature verifies under the supplied key; per commit signature: the verdict of verifyLightBlockCommitSig; "
@@ -299,7 +299,7 @@ def scenarios():
 
 
 def gen(rng, tier):
-    total = 1500 if tier == "quick" else 20000
+    total = 1000 if tier == "quick" else 20000
     yield from scenarios()
     for i in range(total):
         r = rng.random()
